@@ -322,8 +322,9 @@ def fault_table(prog: Program, rep: Report) -> None:
     # (a) missing start / stop / dt
     from ..program import unroll_literal_loops
 
-    tk0 = prog.role_func("time", "__init__")
-    tk = FuncInfo(tk0.module, tk0.qual, unroll_literal_loops(tk0.node), tk0.cls)  # table-driven checks read like repeated ifs
+    from ..program import reading_view
+
+    tk = reading_view(prog, prog.role_func("time", "__init__"))  # table-driven checks read like repeated ifs, named tests like their definition
     params = [p for p in tk.params if p not in ("self", "modules")]
     for want in ("start", "stop", "dt"):
         if want not in params:
@@ -369,7 +370,9 @@ def fault_table(prog: Program, rep: Report) -> None:
     mm = {unparse(n.targets[0]): unparse(n.value) for n in walk_no_nested(tk.node) if isinstance(n, ast.Assign) and unparse(n.targets[0]) in ("self.min_time", "self.max_time")}
     rep.check(rule, tk.qual, "min_time / max_time are min / max of start and stop", mm.get("self.min_time") == "min(self.start_time, self.stop_time)" and mm.get("self.max_time") == "max(self.start_time, self.stop_time)", what_bad=f"{mm}", what_ok="ok", loc=tk.loc())
     # (d) frame order
-    sc = prog.func("ROMS.scan_file_times")
+    from ..program import reading_view as _rv
+
+    sc = _rv(prog, prog.func("ROMS.scan_file_times"))
     order = None
     for n in walk_no_nested(sc.node):
         if isinstance(n, ast.Compare) and len(n.ops) == 1:
@@ -384,12 +387,14 @@ def fault_table(prog: Program, rep: Report) -> None:
     for n in walk_no_nested(sc.node):
         if isinstance(n, ast.Assign) and order and any(x is order[0] for x in ast.walk(n.value)):
             mask_name = unparse(n.targets[0])
-    guard(rep, prog, rule, sc, "forcing frames out of order or duplicated", find_ifs(sc, lambda t: mask_name is not None and unparse(t) in (f"np.any({mask_name})", f"{mask_name}.any()", f"any({mask_name})")), "the out-of-order mask is never tested")
+    masks = [m_ for m_ in (mask_name, unparse(order[0]) if order else None, f"({unparse(order[0])})" if order else None) if m_]
+    any_forms = {f for m_ in masks for f in (f"np.any({m_})", f"{m_}.any()", f"any({m_})", f"np.any({m_.strip('()')})")}
+    guard(rep, prog, rule, sc, "forcing frames out of order or duplicated", find_ifs(sc, lambda t: unparse(t) in any_forms), "the out-of-order mask is never tested")
     # all files are scanned: frames.extend inside the loop over files
     ext = [n for n in walk_no_nested(sc.node) if isinstance(n, ast.For) and unparse(n.iter) == "files" and any(isinstance(x, ast.Call) and unparse(x.func).endswith(".extend") for x in ast.walk(n))]
     rep.check(rule, sc.qual, "frames of all files are collected before the order test", bool(ext), what_bad="frames are not accumulated over all files", what_ok="extend per file", loc=sc.loc())
     # (e) empty release window
-    rl = prog.role_func("release", "__init__")
+    rl = __import__("sa.program", fromlist=["release_init_view"]).release_init_view(prog)
     empties = find_ifs(rl, lambda t: "len(self._df) == 0" in unparse(t))
     after_stop = [g for g in empties if unparse(g.test) == "len(self._df) == 0"]
     after_start = [g for g in empties if "warm_start_file" in unparse(g.test)]
@@ -426,7 +431,7 @@ def fault_table(prog: Program, rep: Report) -> None:
     handler_guard(prog.func("warm_start.warm_start"), ("FileNotFoundError", "OSError"), "Dataset(", "missing warm start file")
     fo = prog.role_func("forcing", "__init__")
     guard(rep, prog, rule, fo, "missing forcing files", find_ifs(fo, lambda t: (cmp_norm(t) or ("", "", ""))[1:] == ("==", "0") and "files" in unparse(t) or unparse(t) in ("not files", "len(files) == 0")), "no guard refuses an empty list of forcing files")
-    cf = prog.func("configure.configure")
+    cf = inline_helpers(prog, prog.func("configure.configure"))
     guard(rep, prog, rule, cf, "missing configuration file", find_ifs(cf, lambda t: unparse(t) in ("not confile.exists()", "not confile.is_file()")), "a missing configuration file is not refused")
     handler_guard(cf, ("TOMLDecodeError",), "tomli.load(", "invalid TOML configuration")
     handler_guard(cf, ("YAMLError",), "safe_load(", "invalid YAML configuration")
